@@ -271,6 +271,21 @@ func c10DevmodScript(seed uint64, ord int) ([]byte, string) {
 		kvs = append(kvs, []any{key, enc(val)})
 		desc = append(desc, fmt.Sprintf("%s=%v", strings.TrimPrefix(key, "devmod:"), val))
 	}
+	if ord%40 == 39 {
+		// one message with very many key changes (every key/value opens a new
+		// reader on the owner side): counts around and far beyond the queue sizes
+		// the library uses elsewhere, still well inside the transport limit
+		cnt := []int{999, 1000, 1001, 1002, 2000, 4000}[(ord/40)%6]
+		valid := (ord/240)%2 == 0
+		for i := 0; i < cnt; i++ {
+			if valid {
+				kvs = append(kvs, []any{[]string{"devmod:os", "devmod:arch"}[i%2], enc("x")})
+			} else {
+				kvs = append(kvs, []any{fmt.Sprintf("m%d:k", i%7), enc(int64(i))})
+			}
+		}
+		return enc([]any{false, kvs}), fmt.Sprintf("devmod-script#%d key-flood n=%d valid=%v", ord, cnt, valid)
+	}
 	ns := []int64{0, 1, 2, 3, 3, 4, 5, 8, 255, 256, 65535, 1 << 20, 1 << 31, -1}
 	n := ns[r.IntN(len(ns))]
 	nearValid := ord%4 != 3
